@@ -19,7 +19,7 @@
 From Coq Require Import Permutation.
 From Ragc Require Import Mach Consts_agcv3 Kmer Segment Pipeline SegReader GroupStore Collection Container AgcV3 ModelCreate.
 From Ragc Require Import Pipeline_proofs Compose_codecs Compose_proofs AgcV3_compose Grand_proofs.
-From Ragc Require Collection_proofs SegCompress_proofs.
+From Ragc Require Collection_proofs SegCompress_proofs Fasta.
 From Ragc Require C01.
 Open Scope N_scope.
 
@@ -237,4 +237,122 @@ Proof.
   split; [apply parts_meta_u64b_ok; exact H2|].
   split; [apply N.leb_le; exact H3|].
   repeat split; assumption.
+Qed.
+
+(* ======================================================================== from FASTA text (C16 / C19, Fasta.v)
+   [text_samples files] is the inner part of Fasta.create_view: the contig stream of the input files
+   (read_contig_converted per file, sample naming of MultiFileIterator, the single-file order check) grouped by
+   Collection::register_sample_contig ([collect]); create_view = text_samples followed by the output letters. *)
+Example text_samples_def : forall files,
+  text_samples files =
+    obnd (match files with
+          | [(fname, text)] => Fasta.stream_single fname text
+          | _ => Fasta.stream_multi files
+          end) (Fasta.collect []) /\
+  Fasta.create_view files =
+    obnd (text_samples files) (fun arch =>
+      Ok (map (fun sc => (fst sc, map (fun nc => (fst nc, Fasta.out_letters (snd nc))) (snd sc))) arch)).
+Proof. intro files. split; [reflexivity|apply Grand_proofs.create_view_text_samples]. Qed.
+
+(* what the FASTA reader and the catalogue give the compressor always meets the shape hypotheses of grand_roundtrip:
+   sample names pairwise different, no sample without contigs, no empty contig, symbol codes 0..30 *)
+Theorem text_samples_shape : forall files arch, text_samples files = Ok arch ->
+  NoDup (map fst arch) /\ Forall (fun sc => snd sc <> []) arch /\
+  (forall s c data, In (s, c, data) (pushes_of arch) -> Forall (fun x => x <= 30) data /\ data <> []).
+Proof. exact Grand_proofs.text_samples_shape. Qed.
+Print Assumptions text_samples_shape.
+
+(* TEXT ROUND TRIP: for any FASTA input files that create accepts (text_samples = Ok arch: every record with a base
+   has a name - C16 parser_complete -, no contig name twice in a sample, single-file sample order) with non-empty
+   sample names and 2 * |contig| + mml < 2^31, under the remaining hypotheses of grand_roundtrip (oracles, domains of
+   the intermediate objects), the format-rule decoder returns from the file bytes exactly the parsed records - which
+   are, printed with the output letters, what C16's create_view (the view C16 compares with the real
+   create / listset / listctg / getset) shows: the normalised records (C16 create_view_complete, extraction_normal_form). *)
+Theorem text_roundtrip :
+  forall (zc : N -> list N -> list N) (zd : list N -> option (list N)),
+  (forall l x, zd (zc l x) = Some x) -> (forall l x, zc l x <> []) ->
+  forall ecn k mml segsize level spl dec grp sched gops fti files arch,
+  1 <= k <= 32 -> 4 <= mml -> mml < two32 -> segsize < two32 -> segsize + k <= 2147483648 ->
+  text_samples files = Ok arch ->
+  Forall (fun s => fst s <> []) arch ->
+  (forall s c data, In (s, c, data) (pushes_of arch) -> 2 * lenN data + mml < 2147483648) ->
+  (forall i s c data j sg, nth_error (pushes_of arch) i = Some (s, c, data) ->
+     nth_error (split_at_splitters_with_size data spl k segsize) j = Some sg ->
+     decision_okb (N.to_nat k) sg (dec i j) = true) ->
+  (forall i part, grp i part < two32) ->
+  (forall l, Permutation l (sched l)) ->
+  ops_carry (all_emit k spl segsize dec grp 0 (pushes_of arch)) gops ->
+  forall b : built,
+  model_build zc ecn k mml segsize level spl dec grp sched gops fti arch = Ok b ->
+  catalogue_in_dom zc segsize k (mc_cat_of (b_coll b)) ->
+  parts_meta_u64 (b_wops b) ->
+  lenN (b_file b) <= spec_max_off ->
+  decode zd (b_file b) = Ok arch /\
+  Fasta.create_view files =
+    Ok (map (fun sc => (fst sc, map (fun nc => (fst nc, Fasta.out_letters (snd nc))) (snd sc))) arch).
+Proof. exact Grand_proofs.text_roundtrip_proof. Qed.
+Print Assumptions text_roundtrip.
+
+(* non-vacuity: the two files of C16's create_view_nonvacuous (r.fa = ">a\nACGT\n>b\nTG\n", s.fa =
+   ">x#1#c\nAC\n>p\nGX\n>e\n\n": a PanSN header, a non-IUPAC letter, a record without bases), k = 3, no splitters,
+   the two contigs of r in LZ group 16 (reference + delta), the others in raw group 5, toy zstd *)
+Definition ex2_files : list (list N * list N) :=
+  [([114;46;102;97], [62;97;10;65;67;71;84;10;62;98;10;84;71;10]);
+   ([115;46;102;97], [62;120;35;49;35;99;10;65;67;10;62;112;10;71;88;10;62;101;10;10])].
+Definition ex2_arch : list (name * list (name * list N)) := match text_samples ex2_files with Ok a => a | _ => [] end.
+Definition ex2_grp (i part : nat) : N := match i with 0%nat | 1%nat => 16 | _ => 5 end.
+Definition ex2_dec (i j : nat) : decision := Plain false.
+Definition ex2_emitted : list (N * seg_in) := all_emit 3 (set_of_list []) 60 ex2_dec ex2_grp 0 (pushes_of ex2_arch).
+Definition ex2_gops : list op := ops_rounds [16; 5] [ex2_emitted].
+Definition ex2_build : outcome built :=
+  model_build SegCompress_proofs.toy_zc (fun c => c) 3 4 60 17 (set_of_list []) ex2_dec ex2_grp (fun l => l) ex2_gops ex_fti ex2_arch.
+
+Example text_roundtrip_nonvacuous : exists b,
+  ex2_build = Ok b /\
+  text_samples ex2_files = Ok ex2_arch /\
+  ex2_arch = [([114], [([97], [0; 1; 2; 3]); ([98], [3; 2])]); ([120; 35; 49], [([120; 35; 49; 35; 99], [0; 1])]);
+              ([115], [([112], [2; 30])])] /\
+  Forall (fun s : name * list (name * list N) => fst s <> []) ex2_arch /\
+  (forall s c data, In (s, c, data) (pushes_of ex2_arch) -> 2 * lenN data + 4 < 2147483648) /\
+  decisions_ok 3 (set_of_list []) 60 ex2_dec (pushes_of ex2_arch) /\
+  (forall i part, ex2_grp i part < two32) /\
+  ops_carry ex2_emitted ex2_gops /\
+  catalogue_in_dom SegCompress_proofs.toy_zc 60 3 (mc_cat_of (b_coll b)) /\
+  parts_meta_u64 (b_wops b) /\
+  lenN (b_file b) <= spec_max_off /\
+  decode SegCompress_proofs.toy_zd (b_file b) = Ok ex2_arch /\
+  decode_strict SegCompress_proofs.toy_zd (b_file b) = SOk ex2_arch /\
+  Fasta.create_view ex2_files =
+    Ok [([114], [([97], [65;67;71;84]); ([98], [84;71])]); ([120;35;49], [([120;35;49;35;99], [65;67])]); ([115], [([112], [71;78])])].
+Proof.
+  assert (H : match ex2_build with
+              | Ok b =>
+                catalogue_in_domb SegCompress_proofs.toy_zc 60 3 (mc_cat_of (b_coll b)) = true /\
+                parts_meta_u64b (b_wops b) = true /\
+                (lenN (b_file b) <=? spec_max_off) = true /\
+                decode SegCompress_proofs.toy_zd (b_file b) = Ok ex2_arch /\
+                decode_strict SegCompress_proofs.toy_zd (b_file b) = SOk ex2_arch
+              | _ => False
+              end) by (vm_compute; repeat split; reflexivity).
+  destruct ex2_build as [b| |]; [|contradiction|contradiction].
+  destruct H as (H1 & H2 & H3 & H4 & H5).
+  exists b. split; [reflexivity|].
+  split; [vm_compute; reflexivity|]. split; [vm_compute; reflexivity|].
+  split. { assert (E : forallb (fun s : name * list (name * list N) => negb (is_nil (fst s))) ex2_arch = true) by (vm_compute; reflexivity).
+           rewrite forallb_forall in E. apply Forall_forall. intros s Hs He. specialize (E s Hs). rewrite He in E. discriminate. }
+  split. { assert (E : forallb (fun p : push => 2 * lenN (snd p) + 4 <? 2147483648) (pushes_of ex2_arch) = true) by (vm_compute; reflexivity).
+           rewrite forallb_forall in E. intros s c data Hp. apply N.ltb_lt. exact (E _ Hp). }
+  split; [apply decisions_okb_ok; vm_compute; reflexivity|].
+  split. { intros i part. unfold ex2_grp. destruct i as [|[|i]]; reflexivity. }
+  split. { unfold ex2_gops. replace ex2_emitted with (concat [ex2_emitted]) at 1 by (cbn [concat]; apply app_nil_r).
+           apply Compose_proofs.ops_rounds_carry.
+           - repeat constructor; cbn; intuition discriminate.
+           - assert (E : forallb (fun x : N * seg_in => existsb (N.eqb (fst x)) [16; 5]) (concat [ex2_emitted]) = true)
+               by (vm_compute; reflexivity).
+             intros x Hx. rewrite forallb_forall in E. specialize (E x Hx). apply existsb_exists in E.
+             destruct E as (g & Hg & Eg). apply N.eqb_eq in Eg. rewrite Eg. exact Hg. }
+  split; [apply catalogue_in_domb_ok; exact H1|].
+  split; [apply parts_meta_u64b_ok; exact H2|].
+  split; [apply N.leb_le; exact H3|].
+  split; [exact H4|]. split; [exact H5|]. vm_compute. reflexivity.
 Qed.
